@@ -40,7 +40,7 @@ fn decode_fits<C: Combo>(bytes: Vec<u8>) -> String {
 }
 
 fn trees<C: Combo>(sink: &mut Sink, rng: &mut Rng, thorough: bool) {
-  let n = if thorough { 3000 } else { 260 };
+  let n = if thorough { 9000 } else { 260 };
   let max_h = if thorough { 6 } else { 4 };
   for i in 0..n {
     let small = i % 2 == 0;
@@ -115,7 +115,7 @@ fn trees<C: Combo>(sink: &mut Sink, rng: &mut Rng, thorough: bool) {
 
 fn unary_wrappers<C: Combo>(sink: &mut Sink, rng: &mut Rng, thorough: bool) {
   let max_depth = <C::Q as MocQty<C::T>>::MAX_DEPTH;
-  let n = if thorough { 2500 } else { 250 };
+  let n = if thorough { 7500 } else { 250 };
   for i in 0..n {
     let d = rng.below(max_depth as u64 + 1) as u8;
     let rs = if i % 5 == 0 { vec![] } else { random_moc_ranges::<C::T, C::Q>(rng, d, 5) };
@@ -150,7 +150,7 @@ macro_rules! convert_case {
 pub fn run(sink: &mut Sink, rng: &mut Rng, thorough: bool) {
   for_all_combos!(trees, sink, rng, thorough);
   for_all_combos!(unary_wrappers, sink, rng, thorough);
-  let n = if thorough { 1500 } else { 150 };
+  let n = if thorough { 4500 } else { 150 };
   convert_case!(sink, rng, n, u16, u32, Hpx, "hpx", 16, 32, H16);
   convert_case!(sink, rng, n, u16, u64, Hpx, "hpx", 16, 64, H16);
   convert_case!(sink, rng, n, u32, u64, Hpx, "hpx", 32, 64, H32);
